@@ -194,8 +194,8 @@ def gen_env(rng, tier):
     for k in range(n_hist):
         r = rng.fork(f"env{k}")
         fmt = ENV_FMTS[k % 4] if k % 10 != 9 else ENV_FMTS[4 + (k // 10) % 2]
-        nch = [1, 2, 3, 0][(k // 4) % 4] if k % 3 else r.choice([0, 1, 2, 3])
-        det = (k // 2) % 4 if k % 5 else r.below(4)
+        det = (k // 4) % 4 if k % 7 else r.below(4)
+        nch = [1, 2, 3, 0][(k // 16) % 4] if k % 3 else r.choice([0, 1, 2, 3])
         win = r.choice([1, 2, 3, 4, 5, 8]) if det == 3 else 0
         mode = r.below(2)
         nframes = r.choice([nfr, nfr, nfr // 2, 12, 5])
